@@ -27,6 +27,8 @@ def corpus(tier, seed):
         std_spec("gauss2", s + 10, 50, reparameterisations={"x0": "rescaletobounds", "x1": "logit"},
                  kills=[300]),
         std_spec("plateau2", s + 11, 50, flow_config={"n_blocks": 2, "n_neurons": 8, "ftype": "maf"}),
+        std_spec("angle2", s + 21, 50, reparameterisations={"phi": "angle", "y": "rescaletobounds"}),
+        std_spec("angle2", s + 22, 25, reparameterisations={"phi": "angle-2pi"}, kills=[150]),
         std_spec("gauss2", s + 12, 50, reparameterisations={"x0": "inversion", "x1": "zscore"},
                  latent_prior="truncated_gaussian", constant_volume_mode=False),
     ]
